@@ -1,4 +1,3 @@
 package main
 
 func checkLemmas(w *World, ps *PropSpec, tier string, seed int) []*Result { return nil }
-func runSelftest(repo, verif string, args []string) int                 { return 2 }
